@@ -495,6 +495,14 @@ def run(ctx):
                 for mode in (1, 2):
                     gen_inputs.append(E("runs", api, c["a"][:3] + [mode, 0], c["b"], []))
                     gen_meta.append(c)
+                # rows whose width is a multiple of 32 (the BitArray has no spare word behind its last bit): the whole symbol flush
+                # with the row end, and the symbol with its last bar cut off by the border (the row ends with the last space)
+                for b, t in ((c["b"], 0), (c["b"][:-2], c["b"][-2] if len(c["b"]) >= 3 else 0)):
+                    if not b:
+                        continue
+                    q = 10 + (-(10 + sum(b) + t)) % 32
+                    gen_inputs.append(E("runs", api, [q, 1, 1, 1 + len(gen_inputs) % 2, t], b, []))
+                    gen_meta.append(c)
         else:
             gen_inputs.append(E(c["op"], c["api"], c["a"], c["b"], c["h"]))
             gen_meta.append(c)
